@@ -11,11 +11,19 @@ package main
 // trace from the history (Spec/PropMap.v) and runs the heap model.
 
 import (
+	"bufio"
+	"bytes"
 	"encoding/json"
 	"fmt"
+	"os"
+	"os/exec"
 	"regexp"
+	"runtime"
+	"runtime/debug"
 	"sort"
 	"strings"
+	"sync"
+	"time"
 
 	"go.pennock.tech/tabular"
 )
@@ -64,6 +72,42 @@ func init() {
 			c12KeyDef{c12i32(v), 7, uint64(v), fmt.Sprintf("i32(%d)", v)},
 		)
 	}
+	// pointer keys of DIFFERENT dynamic types holding the SAME address: a
+	// pointer to a struct and to its first field, a named pointer type and its
+	// underlying pointer type, typed nil pointers, pointers to distinct
+	// zero-size types.  (tag = the type, payload = the address's identity.)
+	c12PtrFamily = len(c12Keys)
+	c12Keys = append(c12Keys,
+		c12KeyDef{&c12outerVar, 8, 100, "&outer"},
+		c12KeyDef{&c12outerVar.First, 9, 100, "&outer.First"},
+		c12KeyDef{c12namedPtr(c12p0), 10, 0, "namedPtr(ptr0)"},
+		c12KeyDef{(*int)(nil), 11, 0, "(*int)(nil)"},
+		c12KeyDef{(*string)(nil), 12, 0, "(*string)(nil)"},
+		c12KeyDef{c12z1p, 13, 1, "&zeroSize1"},
+		c12KeyDef{c12z2p, 14, 1, "&zeroSize2"},
+		c12KeyDef{c12namedPtr(nil), 10, 999, "namedPtr(nil)"},
+	)
+}
+
+type c12outer struct {
+	First int
+	Rest  string
+}
+type c12namedPtr *c12pkey
+type c12zero1 struct{}
+type c12zero2 struct{}
+
+var (
+	c12outerVar  c12outer
+	c12z1p       = new(c12zero1)
+	c12z2p       = new(c12zero2)
+	c12PtrFamily int // index of the first key of the same-address family
+)
+
+// key triples inside the same-address family (and its partners ptr0 = index 3)
+func c12PtrTriples() [][3]int {
+	f := c12PtrFamily
+	return [][3]int{{f, f + 1, 0}, {3, f + 2, f + 3}, {f + 3, f + 4, f + 7}, {f + 5, f + 6, 3}, {f + 1, f, f + 2}, {f + 4, f + 3, f + 6}}
 }
 
 func c12KeyCoq(i int) string {
@@ -415,7 +459,9 @@ type c12StepObs struct {
 	Dump []*c12Entry
 }
 
-func c12Execute(sp *C12Spec) (obs []c12StepObs, panicMsg string) {
+// c12ExecuteSteps runs the history in THIS process, handing over every step's
+// observation as soon as it exists
+func c12ExecuteSteps(sp *C12Spec, emit func(c12StepObs)) (panicMsg string) {
 	w := &c12World{t: tabular.New()}
 	for _, op := range sp.Ops {
 		var so c12StepObs
@@ -429,12 +475,155 @@ func c12Execute(sp *C12Spec) (obs []c12StepObs, panicMsg string) {
 			r := w.step(op)
 			so = c12StepObs{R: r, Dump: w.dump(sp)}
 		}()
-		obs = append(obs, so)
+		emit(so)
 		if so.R == c12Panic {
 			break
 		}
 	}
 	return
+}
+
+// Every history runs in a process of its own.  Two reasons: a change to the
+// library may keep package-level state (a free list of links, a memo), which
+// must not leak from one case into the next or a replay would not reproduce;
+// and a corrupted chain (a cycle) makes Value / %#v recurse until the Go
+// runtime dies with a fatal "stack overflow", which recover() cannot catch -
+// the harness must survive that and report it as what the implementation did.
+// The worker is this same binary, started with C12_WORKER=1 (see the last
+// init of this file); it reads one spec on stdin and writes one JSON line per
+// step, then "END <panic message>".
+func c12WorkerMain() {
+	debug.SetMaxStack(32 << 20)
+	in, err := os.ReadFile("/dev/stdin")
+	if err != nil {
+		os.Exit(3)
+	}
+	var sp C12Spec
+	if err := json.Unmarshal(in, &sp); err != nil {
+		os.Exit(3)
+	}
+	out := bufio.NewWriter(os.Stdout)
+	pm := c12ExecuteSteps(&sp, func(so c12StepObs) {
+		b, _ := json.Marshal(so)
+		out.Write(b)
+		out.WriteByte('\n')
+		out.Flush()
+	})
+	fmt.Fprintf(out, "END %s\n", strings.ReplaceAll(pm, "\n", " "))
+	out.Flush()
+}
+
+type c12Result struct {
+	obs  []c12StepObs
+	pmsg string
+}
+
+const c12CaseTimeout = 20 * time.Second
+
+func c12RunIsolated(spec []byte) c12Result {
+	self, err := os.Executable()
+	if err != nil {
+		panic(err)
+	}
+	cmd := exec.Command(self, "C12")
+	cmd.Env = append(os.Environ(), "C12_WORKER=1")
+	cmd.Stdin = bytes.NewReader(spec)
+	var stdout, stderr bytes.Buffer
+	cmd.Stdout = &stdout
+	cmd.Stderr = &stderr
+	if err := cmd.Start(); err != nil {
+		panic(err)
+	}
+	done := make(chan error, 1)
+	go func() { done <- cmd.Wait() }()
+	timedOut := false
+	select {
+	case <-done:
+	case <-time.After(c12CaseTimeout):
+		timedOut = true
+		cmd.Process.Kill()
+		<-done
+	}
+	var res c12Result
+	ended := false
+	for _, ln := range strings.Split(stdout.String(), "\n") {
+		if strings.HasPrefix(ln, "END") {
+			ended = true
+			res.pmsg = strings.TrimSpace(strings.TrimPrefix(ln, "END"))
+			break
+		}
+		if ln == "" {
+			continue
+		}
+		var so c12StepObs
+		if err := json.Unmarshal([]byte(ln), &so); err != nil {
+			break
+		}
+		res.obs = append(res.obs, so)
+	}
+	if !ended {
+		// the process died (or hung) in the middle of a step: that step's
+		// outcome is "the program crashed"
+		res.obs = append(res.obs, c12StepObs{R: c12Panic})
+		res.pmsg = "the process did not survive this step"
+		if timedOut {
+			res.pmsg += fmt.Sprintf(" (no answer within %v: killed)", c12CaseTimeout)
+		}
+		for _, ln := range strings.Split(stderr.String(), "\n") {
+			if strings.Contains(ln, "fatal error") || strings.HasPrefix(ln, "panic:") || strings.Contains(ln, "goroutine stack exceeds") {
+				res.pmsg += ": " + strings.TrimSpace(ln)
+				break
+			}
+		}
+	}
+	return res
+}
+
+// the generated specs are executed ahead of time by a pool of workers
+var (
+	c12Stash   []json.RawMessage
+	c12Pool    sync.Once
+	c12Futures map[string]chan c12Result
+)
+
+func c12Execute(spec []byte) c12Result {
+	c12Pool.Do(func() {
+		c12Futures = map[string]chan c12Result{}
+		var todo []string
+		for _, s := range c12Stash {
+			k := string(s)
+			if _, ok := c12Futures[k]; !ok {
+				c12Futures[k] = make(chan c12Result, 1)
+				todo = append(todo, k)
+			}
+		}
+		c12Stash = nil
+		n := runtime.NumCPU()
+		if n > 16 {
+			n = 16
+		}
+		if n < 2 {
+			n = 2
+		}
+		jobs := make(chan string, len(todo))
+		for _, k := range todo {
+			jobs <- k
+		}
+		close(jobs)
+		for i := 0; i < n; i++ {
+			go func() {
+				for k := range jobs {
+					c12Futures[k] <- c12RunIsolated([]byte(k))
+				}
+			}()
+		}
+	})
+	if ch, ok := c12Futures[string(spec)]; ok {
+		r := <-ch
+		ch <- r // the same spec may be asked for again
+		return r
+	}
+	return c12RunIsolated(spec)
 }
 
 // ---------------------------------------------------------------- the harness's own abstract maps
@@ -872,6 +1061,15 @@ func c12Random(r *RNG, hostile bool) C12Spec {
 		keys = []int{0, 1}
 		for _, k := range perm {
 			if k > 1 && len(keys) < nkeys {
+				keys = append(keys, k)
+			}
+		}
+	}
+	if r.Pct(25) { // pointer keys of different types holding the same address
+		t := pick(r, c12PtrTriples())
+		keys = []int{t[0], t[1], t[2]}
+		for _, k := range perm {
+			if len(keys) < nkeys && k != t[0] && k != t[1] && k != t[2] {
 				keys = append(keys, k)
 			}
 		}
@@ -1387,8 +1585,8 @@ func init() {
 		CaseFn:   "C12_case",
 		ModelFn:  "C12_model",
 		Rule: "histories of {SetProperty v, SetProperty nil, GetProperty, c2 := *cell, NewCell, NewRow, Row.Add(copy) on a row not yet in the table, AddRow, AddRowItems (growth to 25 columns), t.Column(n) handle taken and used later} " +
-			"over owners table / column n incl. 0 / handle / row / cell through CellAt / detached cell copy, keys from {int 1, int64 1, \"1\", two pointers, two struct keys, int 2} plus, for the deep-chain stream, the values 3..10 as int / int64 / string / pointer / struct / uint8 / float64 / named int32; " +
-			"after every step every watched owner is read under every key and its chain length is read off %#v; " +
+			"over owners table / column n incl. 0 / handle / row / cell through CellAt / detached cell copy, keys from {int 1, int64 1, \"1\", two pointers, two struct keys, int 2, and pointer keys of different types holding the same address: &struct / &struct.firstField, a named pointer type / *T, (*int)(nil) / (*string)(nil), pointers to two zero-size types} plus, for the deep-chain stream, the values 3..10 as int / int64 / string / pointer / struct / uint8 / float64 / named int32; " +
+			"after every step every watched owner is read under every key and its chain length is read off %#v; every history runs in a process of its own (package-level state cannot leak between cases; a fatal crash such as a stack overflow on a cyclic chain is an observation, not a harness failure); " +
 			"every history of exactly 4 (thorough: 5) steps after a fixed prefix in the 4 two-owner scenarios with sharing or a handle (cell copy, Row.Add of a copy, copy of a copy, handle across growth) and of 3 (4) steps in the 3 scenarios with plain independent owners (keys in order of first use, concrete key triple rotating), deterministic deep-chain / re-set / Row.Add / per-column-handle histories, a deep-chain stream (one owner of every kind - table, column 0, column n, handle held across growth, row in and out of the table, cell, detached copy - loaded with 18-40 distinct keys of eight dynamic types, then set nil / re-set / nil-then-set of the newest, 16th-20th, middle and oldest links, for cells alternately through a by-value copy; 24 keys re-set round-robin twice then all set to nil), and random histories with growth in the middle; " +
 			"non-trivial = at least one non-nil set took effect; distinct = distinct (history, trace)",
 		Exhaustive: "all histories of exactly 4 (thorough 5) steps over 2 owners x 3 keys x {set fresh value, set nil} + the scenario's structural ops (copy / Row.Add / AddRow / growth to 25 columns), in 4 scenarios; one step shorter in 3 scenarios with plain independent owners",
@@ -1406,7 +1604,8 @@ func init() {
 					ln = n - 1
 				}
 				c12Enumerate(sc, ln, func(ops []C12Op, used int) {
-					triple := c12Triples[ctr%len(c12Triples)]
+					triples := append(append([][3]int{}, c12Triples...), c12PtrTriples()...)
+					triple := triples[ctr%len(triples)]
 					ctr++
 					all := append(append([]C12Op{}, sc.prefix...), c12RemapKeys(ops, triple)...)
 					out = append(out, mustJSON(C12Spec{Ops: all, Keys: c12SortedKeys(all, triple[0], triple[1], triple[2]), Watch: sc.watch}))
@@ -1432,6 +1631,7 @@ func init() {
 			for i := 0; i < nr; i++ {
 				out = append(out, mustJSON(c12Random(r, i%5 == 4)))
 			}
+			c12Stash = out
 			return out
 		},
 		Run: func(spec json.RawMessage) CaseOut {
@@ -1439,7 +1639,8 @@ func init() {
 			if err := json.Unmarshal(spec, &sp); err != nil {
 				panic(err)
 			}
-			obs, pmsg := c12Execute(&sp)
+			res := c12Execute(spec)
+			obs, pmsg := res.obs, res.pmsg
 			sig, what := c12Classify(&sp, obs)
 			desc := map[string]interface{}{}
 			var prog []string
@@ -1448,6 +1649,9 @@ func init() {
 			}
 			desc["go"] = prog
 			desc["keys"] = c12KeyNames(sp.Keys)
+			if sig == "panic" && strings.Contains(pmsg, "did not survive") {
+				sig = "process-crash"
+			}
 			if sig != "" {
 				desc["sig"] = sig
 				desc["deviation"] = what
@@ -1486,4 +1690,13 @@ func init() {
 		},
 		Shrink: c12Shrink,
 	})
+}
+
+// worker mode: must stay the LAST init of this file (the key table is complete
+// by now); nothing of the normal harness runs in a worker
+func init() {
+	if os.Getenv("C12_WORKER") == "1" {
+		c12WorkerMain()
+		os.Exit(0)
+	}
 }
